@@ -589,8 +589,9 @@ static void entropy_gen(Plan *p, uint64_t base_seed, uint64_t variant, int tier)
 		/* all-zero draws drive the "scalar must not be zero" retry; not for SM9, whose master-key generation accepts 0 and
 		 * later trips an assert (recorded in 12.2, outside the property) */
 		if (!(p->op && g_ops[p->op].sm9) && rng_chance(&v, 1, 3)) p->eburst_val = 0x00;
-		/* the boundary of the range itself: a draw equal to the group order n, or to n-1 (a private key lives in [1, n-2]) */
-		else if (!(p->op && g_ops[p->op].sm9) && rng_chance(&v, 1, 3)) { p->eburst_val = 256 + rng_below(&v, 4); if (p->eburst_k > 3) p->eburst_k = 1 + rng_below(&v, 3); }
+		/* the boundary of the range itself: a draw equal to the group order n, or to n-1 (a private key lives in [1, n-2])
+		 * (short bursts only: the long ones keep their share of all-ones draws, which is what exhausts the retry loop) */
+		else if (!(p->op && g_ops[p->op].sm9) && p->eburst_k <= 3 && rng_chance(&v, 1, 3)) p->eburst_val = 256 + rng_below(&v, 4);
 	}
 }
 
